@@ -947,7 +947,7 @@ def render(t):
 
 _DRIVER_FILES = {"registry": "Registry", "exec": "Exec", "items": "ItemSpace", "relative": "Relative",
                  "relhist": "RelHist",
-                 "export": "Export", "codec": "Codec", "iospec": "IOSpec", "capture": "Capture",
+                 "export": "Export", "codec": "Codec", "iospec": "IOSpec", "iosession": "IOSession", "capture": "Capture",
                  "backup": "Backup", "calcsteps": "CalcSteps", "struct": "Struct", "smech": "SMech",
                  "serial": "Serial", "edit": "Edit"}
 
